@@ -143,6 +143,10 @@ type VNode struct {
 	Logger *log.Logger
 	Gen    common.Hash
 	salt   int64
+	// PreDeliver, when set, runs after a block was appended and BEFORE its pending ETXs are handed
+	// to the dominant chain (the moment at which a hostile peer's bundle can win the race against
+	// the genuine broadcast).
+	PreDeliver func(blk *types.WorkObject)
 }
 
 var VZoneLoc = common.Location{0, 0}
@@ -532,6 +536,9 @@ func (n *VNode) Insert(blk *types.WorkObject) (int, error) {
 	pend, err := n.Sl[order].Append(cp, common.Hash{}, false, nil)
 	if err != nil {
 		return order, err
+	}
+	if n.PreDeliver != nil {
+		n.PreDeliver(blk)
 	}
 	if order > 0 && n.Cfg.Levels == 3 {
 		pe := types.PendingEtxs{Header: blk.ConvertToPEtxView(), OutboundEtxs: pend}
